@@ -1,0 +1,9 @@
+//go:build !verif
+
+package verifhook
+
+// Enabled reports whether hooks are compiled in.
+const Enabled = false
+
+// At is a no-op without the verif build tag.
+func At(point, a, b string) {}
